@@ -52,8 +52,10 @@ class FnContract:
         self.ret = "r"
         self.requires, self.ensures = [], []
         self.findings = []
+        self.assumed = []
         self.ascribe = []
         self.pin_labels = []
+        self.n1_values = []
         self.fn_decreases = None
         self.loops = {}      # n -> {"invariants": [Clause], "decreases": str, "iter": str}
         self.closures = {}   # n -> header text
@@ -167,6 +169,8 @@ def parse_spec(path):
             fn.ret = arg.strip()
         elif name == "trusted":
             fn.trusted = text or "trusted"
+        elif name == "value-receiver":
+            fn.n1_values += arg.split()
         elif name == "pin-labels":
             fn.pin_labels = arg.split()
         elif name == "rules":
@@ -179,6 +183,10 @@ def parse_spec(path):
         elif name == "ensures":
             labels, t = split_labels(text, where)
             fn.ensures.append(Clause("ensures", labels, t, where))
+        elif name == "assume":
+            # a clause importers may rely on although the verifying unit cannot prove it (listed as an assumption)
+            labels, t = split_labels(text, where)
+            fn.assumed.append(Clause("assumed", labels, t, where))
         elif name == "finding":
             labels, t = split_labels(text, where)
             fn.findings.append(Clause("finding", labels, t, where))
